@@ -1635,9 +1635,14 @@ class AnsiString:
         split_idx_len = []
         idx = 0
         for s in str_splits:
-            idx = self._s.find(s, idx)
+            if sep is None:
+                # Pieces are separated by whitespace only, so the next piece is the next occurrence
+                idx = self._s.find(s, idx)
             split_idx_len.append((idx, len(s)))
             idx += len(s)
+            if sep is not None:
+                # Exactly one separator lies between two pieces (a search could match inside the separator)
+                idx += len(sep)
 
         ansi_str_splits = []
         for idx, length in split_idx_len:
